@@ -7,7 +7,9 @@ RULE = ("one case = one game on a real MPF machine (rig.FakeGameRig, virtual clo
         "max_players (1-5), num_balls_known (0-4), answer to the game's own first player_add_request, and a list of "
         "inputs consumed one per suspension of the game coroutine (every lifecycle event post, every idle wait for "
         "end-of-ball / first player).  An input carries the operations a handler of that lifecycle event issues "
-        "(drain n, balls_in_play += d, end_ball, end_game, slam tilt, request_player_add allowed/denied, extra-ball award), "
+        "(drain n, balls_in_play += d, end_ball, end_game, slam tilt, request_player_add allowed/denied, release of the oldest/newest "
+        "player_adding queue held open by a handler (cases with such a handler: profile heldadds and 10% of the others), "
+        "extra-ball award), "
         "the batches that arrive while a queue-event handler holds a wait, and the batch used when the game is idle. "
         "Profiles bias towards: adds in every gap, extra balls, multiball arithmetic, early ends, plain games. "
         "non-trivial = the game got at least one operation inside a lifecycle event (not only idle drains); distinct by case hash")
@@ -22,7 +24,9 @@ TRUSTED_BASE = [
     "mpf.tests.MpfFakeGameTestCase (no ball devices: playfield.add_ball stubbed, num_balls_known set, drains posted as ball_drain relay events)",
 ]
 ASSUMPTIONS = [
-    "no handler holds a wait on player_adding, and no handler of player_added/player_will_add acts on the game",
+    "no handler of player_added/player_will_add acts on the game; a player_adding handler, when present, holds every new player's "
+    "queue until an explicit release, and releases happen only while the machine is quiescent (idle batch or inside a held lifecycle "
+    "queue event): the interleaving of an unheld player_adding queue task with the next lifecycle event belongs to C01/C02",
     "operations reach the game only at lifecycle events (handlers), inside held queue events, or while the game idles; the silent awaits of "
     "_start_ball (single/multi_player_ball_started, ball_start_target) get no operations",
     "tilt/bonus/high-score modes are not loaded; slam tilt is the effect of Tilt.slam_tilt on the game object (slam_tilted=True, end_ball unless ending)",
@@ -37,15 +41,18 @@ K = {n: i for i, n in enumerate(KINDS)}
 QUEUE = {1, 4, 7, 10, 13, 16}
 GWS, GSg, GSd, GWE, GEg, GEd, PTWS, PTSg, PTSd, PTWE, PTEg, PTEd, BWS, BSg, BSd, BWE, BEg, BEd = range(18)
 
-PROFILES = ["plain", "busy", "adds", "extras", "multiball", "enders", "mixed"]
+PROFILES = ["plain", "busy", "adds", "heldadds", "heldadds", "extras", "multiball", "enders", "mixed"]
 
 
 # ------------------------------------------------------------------------------------------------
 # generator
 def gen_op(rng, prof):
-    w = {"drain": 2, "addbip": 1, "endball": 1, "endgame": 0.25, "slam": 0.25, "addplayer": 2.5, "award": 1}
+    w = {"drain": 2, "addbip": 1, "endball": 1, "endgame": 0.25, "slam": 0.25, "addplayer": 2.5, "award": 1, "release": 0.7}
     if prof == "adds":
-        w = {"drain": 1, "addbip": 0, "endball": 1, "endgame": 0, "slam": 0, "addplayer": 8, "award": 1}
+        w = {"drain": 1, "addbip": 0, "endball": 1, "endgame": 0, "slam": 0, "addplayer": 8, "award": 1, "release": 0.5}
+    elif prof == "heldadds":
+        # player_adding queues held open across turn ends and ball starts, released late and out of step
+        w = {"drain": 1, "addbip": 0, "endball": 1, "endgame": 0.05, "slam": 0.05, "addplayer": 6, "award": 0.5, "release": 1.2}
     elif prof == "extras":
         w = {"drain": 1, "addbip": 0, "endball": 1, "endgame": 0.2, "slam": 0.3, "addplayer": 1, "award": 6}
     elif prof == "multiball":
@@ -54,6 +61,7 @@ def gen_op(rng, prof):
         w = {"drain": 1, "addbip": 1, "endball": 3, "endgame": 3, "slam": 2, "addplayer": 2, "award": 1}
     elif prof == "plain":
         w = {"drain": 1, "addbip": 0.3, "endball": 1, "endgame": 0.1, "slam": 0.1, "addplayer": 2, "award": 1}
+    w.setdefault("release", 0.3)
     ks = list(w)
     k = rng.choices(ks, [w[x] for x in ks])[0]
     if k == "drain":
@@ -64,13 +72,21 @@ def gen_op(rng, prof):
         return [k, rng.choice(["call", "event"])]
     if k == "addplayer":
         return ["addplayer", rng.random() < 0.85]
+    if k == "release":
+        return ["release", rng.random() < 0.3]
     return [k]
 
 
-def gen_batch(rng, prof, p_any, maxn=3):
+def gen_batch(rng, prof, p_any, maxn=3, ev=False):
     if rng.random() >= p_any:
         return []
-    return [gen_op(rng, prof) for _ in range(rng.choice([1, 1, 1, 2, 2, maxn]))]
+    b = [gen_op(rng, prof) for _ in range(rng.choice([1, 1, 1, 2, 2, maxn]))]
+    if ev:
+        # a player_adding queue is only released while the machine is quiescent (idle batch / batch inside a held
+        # lifecycle queue event): inside a handler the relative order of the queue task and the next lifecycle event
+        # is a matter of the event manager (C01/C02), not of the game
+        b = [o for o in b if o[0] != "release"]
+    return b
 
 
 def gen_idle(rng, prof):
@@ -98,12 +114,12 @@ def gen_input(rng, prof, dens):
     holds = []
     if rng.random() < 0.12:
         holds = [gen_batch(rng, prof, 0.7) for _ in range(rng.choice([0, 1, 1, 2, 3]))]
-    return {"ev": gen_batch(rng, prof, dens), "holds": holds, "idle": gen_idle(rng, prof)}
+    return {"ev": gen_batch(rng, prof, dens, ev=True), "holds": holds, "idle": gen_idle(rng, prof)}
 
 
 def gen_game(rng, tier, i):
     prof = rng.choice(PROFILES)
-    dens = {"plain": 0.04, "busy": 0.35, "adds": 0.25, "extras": 0.12, "multiball": 0.15, "enders": 0.06,
+    dens = {"plain": 0.04, "busy": 0.35, "adds": 0.25, "heldadds": rng.choice([0.08, 0.2, 0.4]), "extras": 0.12, "multiball": 0.15, "enders": 0.06,
             "mixed": rng.choice([0.02, 0.1, 0.5])}[prof]
     if prof == "adds" and rng.random() < 0.5:
         dens = 0.6
@@ -116,7 +132,8 @@ def gen_game(rng, tier, i):
         for _ in range(rng.choice([40, 120, 300])):
             ins.append({"ev": [], "holds": [], "idle": [["drain", rng.choice([1, 1, 1, 2])]]})
     return {"bpg": rng.choice([1, 1, 2, 2, 3, 3, 4]), "maxp": rng.choice([1, 2, 2, 3, 4, 4, 5]),
-            "nbk": rng.choice([0, 1, 2, 3, 3, 4]), "own": rng.random() < 0.93, "ins": ins, "profile": prof}
+            "nbk": rng.choice([0, 1, 2, 3, 3, 4]), "own": rng.random() < 0.93,
+            "holdadds": prof == "heldadds" or rng.random() < 0.1, "ins": ins, "profile": prof}
 
 
 # ------------------------------------------------------------------------------------------------
@@ -170,7 +187,7 @@ def _new_rig():
                 return
             inp = c["ins"][c["pos"]]
             c["pos"] += 1
-            post_batch(inp["ev"])
+            post_batch([o for o in inp["ev"] if o[0] != "release"])
             if kind in QUEUE and inp["holds"]:
                 kwargs["queue"].wait()
                 c["hold"] = [kwargs["queue"], list(inp["holds"])]
@@ -209,6 +226,9 @@ def _new_rig():
             c["flags"].append(bool(op[1]))
             if not g.request_player_add():
                 c["flags"].pop()
+        elif k == "release":
+            if c["heldq"]:
+                c["heldq"].pop(-1 if op[1] else 0).clear()
         elif k == "award":
             if g.player:
                 g.player.extra_balls += 1
@@ -230,6 +250,14 @@ def _new_rig():
         ok = c["flags"].pop(0) if c["flags"] else c["own"]
         return None if ok else False
 
+    def player_adding(queue, **kwargs):
+        c = ctx()
+        if c is None or c["phase"] != "run":
+            return
+        queue.wait()
+        c["heldq"].append(queue)
+
+    r._player_adding = player_adding
     m.events.add_handler("verif_op", verif_op)
     m.events.add_handler("verif_obs", verif_obs)
     m.events.add_handler("player_add_request", player_add_request, priority=1000)
@@ -279,8 +307,13 @@ def run_game(case):
     m.playfield.balls = 0
     m.playfield.available_balls = 0
     c = {"phase": "run", "stop": False, "log": [], "evc": 0, "pos": 0, "ins": case["ins"], "hold": None,
-         "flags": [], "own": bool(case["own"]), "restart_started": False}
+         "flags": [], "heldq": [], "own": bool(case["own"]), "restart_started": False}
     _R["ctx"] = c
+    m.events.remove_handler(r._player_adding)
+    if case.get("holdadds"):
+        # a handler of the player_adding queue event that keeps every new player's queue open until it is told to
+        # release it (op "release"); without it the event manager completes player_adding on its fast path
+        m.events.add_handler("player_adding", r._player_adding, priority=1000)
     out = {"log": c["log"], "err": None}
     try:
         r.hit_and_release_switch("s_start")
@@ -330,6 +363,7 @@ def run_game(case):
     if r.exception() is not None and out["err"] is None:
         out["err"] = "machine-exception: %r" % (r.exception(),)
     c["phase"] = "cleanup"
+    m.events.remove_handler(r._player_adding)
     out["consumed"] = c["pos"]
     clean = False
     try:
@@ -360,6 +394,8 @@ def cop(op):
         return "SlamTilt"
     if k == "addplayer":
         return "AddPlayerReq %s" % blit(op[1])
+    if k == "release":
+        return "ReleaseAdd %s" % blit(op[1])
     if k == "award":
         return "AwardExtra"
     raise ValueError(op)
@@ -374,7 +410,9 @@ def enc_log(log):
     for e in log:
         t = e["t"]
         if t == "ev":
-            rows.append([1, e["k"], e["p"], e["b"], 1 if e["x"] else 0, e["bip"], e["np"]])
+            game_level = e["k"] <= GEd      # game_* events carry no player
+            rows.append([1, e["k"], 0 if game_level else e["p"], 0 if game_level else e["b"], 1 if e["x"] else 0,
+                         e["bip"], e["np"]])
         elif t == "idle":
             rows.append([2, e["bip"], e["np"]])
         elif t == "award":
@@ -387,9 +425,10 @@ def enc_log(log):
 def coq_game(case, out):
     if out.get("err"):
         return None     # reported by the oracle (sig machine-error)
-    ins = coqlist("mkin %s %s %s" % (cbatch(i["ev"]), coqlist(cbatch(h) for h in i["holds"]), cbatch(i["idle"]))
+    ins = coqlist("mkin %s %s %s" % (cbatch([o for o in i["ev"] if o[0] != "release"]), coqlist(cbatch(h) for h in i["holds"]), cbatch(i["idle"]))
                   for i in case["ins"])
-    cfg = "cfgz %s %s %s %s" % (zlit(case["bpg"]), zlit(case["maxp"]), zlit(case["nbk"]), blit(case["own"]))
+    cfg = "cfgz %s %s %s %s %s" % (zlit(case["bpg"]), zlit(case["maxp"]), zlit(case["nbk"]), blit(case["own"]),
+                                  blit(case.get("holdadds", False)))
     exp = coqlist("[" + ";".join(zlit(x) for x in row) + "]" for row in enc_log(out["log"]))
     return "((%s, %s), %s)" % (cfg, ins, exp)
 
@@ -624,6 +663,8 @@ def shrink_game(case):
         yield mk(ins, maxp=case["maxp"] - 1)
     if not case["own"]:
         yield mk(ins, own=True)
+    if case.get("holdadds"):
+        yield mk(ins, holdadds=False)
     if case["nbk"] != 3:
         yield mk(ins, nbk=3)
 
